@@ -102,6 +102,7 @@ static std::recursive_mutex g_out_mtx;
 // prints of the scenario thread while worker threads may be inside (multi-part) callback prints
 #define LOCKED_PRINT(...) do { std::lock_guard<std::recursive_mutex> lg_(g_out_mtx); fprintf(OUT, __VA_ARGS__); } while (0)      // callbacks may come from the receive and the decode thread
 static std::atomic<int> g_pcap_exit(0), g_pcap_repeat(0);
+static std::mutex g_wd_mtx; static std::string g_wd_cmd;   // watchdog (WD): the directive being executed
 
 static std::vector<std::string> split_ws(const std::string& s)
 {
@@ -329,7 +330,10 @@ struct Inst
   bool qmode = false; int slow_us = 0; std::atomic<long> qdecoded{0};
   // lifecycle runs (C11)
   std::atomic<bool> lmode{false}; std::atomic<bool> stopped{false}; std::atomic<long> npkt{0}; std::string lpath; RSDriverParam lparam;
-  ~Inst() { drv.reset(); if (!lpath.empty()) unlink(lpath.c_str()); }
+  // background feeder (LB / LY): a caller's thread that keeps calling decodePacket() while lifecycle calls are made
+  std::thread bg; std::atomic<bool> bg_stop{false};
+  void stop_bg() { if (bg.joinable()) { bg_stop = true; bg.join(); } }
+  ~Inst() { stop_bg(); drv.reset(); if (!lpath.empty()) unlink(lpath.c_str()); }
   void late(const char* what) { if (stopped) { std::lock_guard<std::recursive_mutex> lg(g_out_mtx); fprintf(OUT, "late %d %s\n", idx, what); } }
 
   int id_of(const std::shared_ptr<PC>& p) { for (auto& kv : bufs) if (kv.second == p) return kv.first; return -1; }
@@ -344,7 +348,12 @@ struct Inst
     if (next_answer < answers.size())
     {
       std::string a = answers[next_answer++];
-      if (a == "N") { fprintf(OUT, "get %d N\n", idx); return nullptr; }
+      if (a == "N")
+      {
+        fprintf(OUT, "get %d N\n", idx);
+        if (lmode) std::this_thread::sleep_for(std::chrono::milliseconds(1));   // real threads: a dry pool stays dry for a while
+        return nullptr;
+      }
       int id = atoi(a.c_str());
       auto it = bufs.find(id);
       if (it == bufs.end()) { bufs[id] = std::make_shared<PC>(); }
@@ -447,7 +456,36 @@ static int run_scenario(std::vector<std::string>& lines)
     if (t.empty()) continue;
     const std::string& c = t[0];
     auto I = [&](size_t i) { return atol(t[i].c_str()); };
+    { std::lock_guard<std::mutex> lg(g_wd_mtx); g_wd_cmd = line.substr(0, 40); }
     if (c == "B") continue;
+    else if (c == "WD")
+    {
+      // WD secs : from here on, a call that has not returned after secs seconds is a hang (deadlock / a stop() that never returns)
+      int secs = (int)I(1);
+      std::thread([secs]() {
+        std::this_thread::sleep_for(std::chrono::seconds(secs));
+        std::string cmd; { std::lock_guard<std::mutex> lg(g_wd_mtx); cmd = g_wd_cmd; }
+        { std::lock_guard<std::recursive_mutex> lg(g_out_mtx); fprintf(OUT, "hang %s\n", cmd.c_str()); fflush(OUT); }
+        _exit(70);
+      }).detach();
+    }
+    else if (c == "SL") std::this_thread::sleep_for(std::chrono::milliseconds(I(1)));
+    else if (c == "LB" || c == "LY")
+    {
+      auto it = insts.find((int)I(1));
+      if (it == insts.end() || !it->second->drv) continue;
+      Inst* in = it->second.get();
+      in->stop_bg();
+      if (c == "LB")
+      {
+        // LB i period_us hex : a thread of the caller feeds this packet every period_us until LY i
+        long period = I(2); std::vector<uint8_t> b = t.size() > 3 ? unhex(t[3]) : std::vector<uint8_t>();
+        in->bg_stop = false;
+        in->bg = std::thread([in, period, b]() {
+          while (!in->bg_stop) { Packet pk; pk.buf_ = b; in->drv->decodePacket(pk); std::this_thread::sleep_for(std::chrono::microseconds(period)); }
+        });
+      }
+    }
     else if (c == "Z") { insts.erase((int)I(1)); }
     else if (c.size() == 2 && c[0] == 'L')
     {
